@@ -224,6 +224,14 @@ impl<const D: usize> SampleGenerator<D> {
     }
 }
 
+/// Verification hook (only with `--cfg momtrop_verif`), see `TropicalSubgraphTable::verif_sample_edge`.
+#[cfg(momtrop_verif)]
+impl<const D: usize> SampleGenerator<D> {
+    pub fn verif_sample_edge<T: MomTropFloat>(&self, uniform: &T, subgraph_id: usize) -> (usize, usize) {
+        self.table.verif_sample_edge(uniform, subgraph_id)
+    }
+}
+
 #[allow(unused)]
 const SHREK: &str = " ⢀⡴⠑⡄⠀⠀⠀⠀⠀⠀⠀⣀⣀⣤⣤⣤⣀⡀⠀⠀⠀⠀⠀⠀⠀⠀⠀⠀⠀⠀ 
 ⠸⡇⠀⠿⡀⠀⠀⠀⣀⡴⢿⣿⣿⣿⣿⣿⣿⣿⣷⣦⡀⠀⠀⠀⠀⠀⠀⠀⠀⠀ 
